@@ -120,7 +120,8 @@ class Check(object):
                 ("\n  found:    " + v["found"]) if "found" in v else ""))
         for e in self.errors:
             out.append("ANALYSIS-ERROR property=%s %s" % (self.pid, e))
-        code = 2 if self.errors else (1 if new else 0)
+        # a violation names a specific construct and is reported as such even if, in addition, part of the analysis broke
+        code = 1 if new else (2 if self.errors else 0)
         n_inst = len(self.instances)
         distinct = len({(i["rule"], i["construct"]) for i in self.instances})
         cov = {
